@@ -252,7 +252,7 @@ func (vm *VM) run() (Addr, bool) {
 
 		// Call
 		case OpCallFunc:
-			call := callFrame{cl: callable{fn: vm.fn, vars: vm.vars}, fp: vm.fp, pc: vm.pc + 1}
+			call := callFrame{cl: callable{fn: vm.fn, vars: vm.vars}, renderer: vm.renderer, fp: vm.fp, pc: vm.pc + 1}
 			fn := vm.fn.Functions[uint8(a)]
 			off := vm.fn.Body[vm.pc]
 			vm.fp[0] += Addr(off.Op)
@@ -283,7 +283,7 @@ func (vm *VM) run() (Addr, bool) {
 				startNativeGoroutine = false
 				vm.pc++
 			} else {
-				call := callFrame{cl: callable{fn: vm.fn, vars: vm.vars}, fp: vm.fp, pc: vm.pc + 1}
+				call := callFrame{cl: callable{fn: vm.fn, vars: vm.vars}, renderer: vm.renderer, fp: vm.fp, pc: vm.pc + 1}
 				fn := f.fn
 				off := vm.fn.Body[vm.pc]
 				vm.fp[0] += Addr(off.Op)
@@ -303,7 +303,6 @@ func (vm *VM) run() (Addr, bool) {
 					vm.moreGeneralStack()
 				}
 				if fn.Macro {
-					call.renderer = vm.renderer
 					if b == ReturnString {
 						vm.renderer = newRenderer(&strings.Builder{})
 					} else if ast.Format(b) != fn.Format {
